@@ -518,8 +518,10 @@ func (p *Parser) parseBuffer(buf []byte, last bool) (err error) {
 		case tokenSpc:
 			p.addToken(off)
 		case tokenColon:
+			// A ':' or quote ends the token and is then handled the same
+			// way as when the token did not cross a buffer boundary.
 			p.addToken(off)
-			p.mode = valueMap
+			off--
 		case tokenNlColon:
 			p.addToken(off)
 			p.line++
